@@ -577,6 +577,13 @@ fn gen_case15(rng: &mut Rng, out: &mut dyn Write, arbitrary: bool) {
 }
 
 impl Area for A15 {
+    fn consts(&self) -> Vec<(String, String)> {
+        vec![
+            ("MAX_SUBSTATE_KEY_SIZE".into(), radix_common::constants::MAX_SUBSTATE_KEY_SIZE.to_string()),
+            // longest DbSortKey the engine's key mapper produces: Sorted = 2 + hashed prefix + key
+            ("HASHED_PREFIX_LENGTH".into(), <radix_substate_store_interface::db_key_mapper::SpreadPrefixKeyMapper as radix_substate_store_interface::db_key_mapper::DatabaseKeyMapper>::to_db_node_key(&NodeId([0u8; 30])).len().saturating_sub(30).to_string()),
+        ]
+    }
     fn gen(&self, rng: &mut Rng, n: usize, out: &mut dyn Write) {
         for i in 0..n {
             // every third case: arbitrary keys on the two plain stores only (the Merkle store's tree needs
